@@ -163,17 +163,25 @@ class SkBaseTransformLearner(SkBaseTransform):
         elif not hasattr(self, "model") or self.model is None:
             raise KeyError(f"Missing key 'model' in [{', '.join(sorted(values))}]")
         if "method" in values:
-            self._set_method(values["method"])
-            del values["method"]
-        for k in values:
-            if not k.startswith("model__"):
-                raise ValueError(f"Parameter '{k}' must start with 'model__'.")
-        d = len("model__")
-        pars = {k[d:]: v for k, v in values.items()}
-        self.model.set_params(**pars)
-        if "method" in values:
             self.method = values["method"]
-            self._set_method(values["method"])
+            del values["method"]
+        d = len("model__")
+        pars = {}
+        own = {}
+        for k, v in values.items():
+            if k.startswith("model__"):
+                pars[k[d:]] = v
+            elif k in self.P.Keys:
+                own[k] = v
+            else:
+                raise ValueError(f"Parameter '{k}' must start with 'model__'.")
+        if own:
+            SkBaseTransform.set_params(self, **own)
+        if pars:
+            self.model.set_params(**pars)
+        # the method is bound to the current model
+        self._set_method(self.method)
+        return self
 
     #################
     # common methods
